@@ -369,6 +369,13 @@ def r7_4(ctx, rc):
                          'the operation\'s own key', d.file, key=key)
 
 
+def r7_5(ctx, rc):
+    """The function receives copies of the sanitised values; the recorded
+    identity cannot drift through the callee (R11.1)."""
+    from .c11 import r11_1
+    r11_1(ctx, rc)
+
+
 def r7_6(ctx, rc):
     c18.r18_4(ctx, rc)
     c18.r18_3(ctx, rc)
@@ -381,5 +388,6 @@ RULES = [
      r7_2),
     ('R7.3', 'one key function for claim, duplicate test and lookup', r7_3),
     ('R7.4', 'lookups compare name/args/kwargs through JSON equality', r7_4),
+    ('R7.5', 'the callee receives copies of the sanitised arguments', r7_5),
     ('R7.6', 'hashable-form tags and structural equality rules', r7_6),
 ]
